@@ -57,6 +57,8 @@ RULES = {
     "P-wrap": "rules_par.rule_p_wrap",
     "E9-par": "rules_par.rule_e9_par",
     "Y-state": "rules_par.rule_y_state",
+    "W-witness": "rules_witness.rule_witness",
+    "X-contract": "rules_contract.rule_x_contract",
     "S-grow": "rules_size.rule_s_grow",
     "S-shrink": "rules_size.rule_s_shrink",
     "S-reserve": "rules_size.rule_s_reserve",
@@ -69,7 +71,7 @@ PROPERTY_RULES = {
     "C02": ["W-bound", "W-reentry", "W-read"],
     "C03": ["M-carry", "T-mover", "T-free", "P-only", "T-grow", "M-pair"],
     "C04": ["S-grow", "S-shrink", "S-reserve", "T-grow", "M-carry", "T-mover", "P-only", "L-use"],
-    "C05": ["P-rem", "P-fill", "P-only", "P-new", "K-new", "K-use", "K-field", "L-use", "L-handle", "T-grow", "V-unsafe", "V-unreach", "V-impl"],
+    "C05": ["P-rem", "P-fill", "P-only", "P-new", "K-new", "K-use", "K-field", "L-use", "L-handle", "T-grow", "V-unsafe", "V-unreach", "V-impl", "W-witness"],
     "C06": ["V-own", "M-pair", "B-clear", "B-drain", "B-into", "P-rem", "P-fill"],
     "C07": ["CLEAN", "P-rem", "P-fill", "E9-pol", "V-own", "H-agree"],
     "C08": ["B-comp", "B-drain", "B-into", "K-field", "I-wrap", "I-order"],
@@ -79,13 +81,24 @@ PROPERTY_RULES = {
     "C12": ["N-occ", "N-ins", "N-repl", "L-use", "L-handle", "K-new", "K-use", "P-rem", "P-fill", "H-agree"],
     "C13": ["D-set", "E9-set", "E9-bool"],
     "C14": ["E9-bool", "RO-layout", "H-agree"],
-    "C15": ["B-par", "P-wrap", "E9-par", "Y-state", "K-new", "K-field", "B-comp", "V-impl"],
+    "C15": ["B-par", "P-wrap", "E9-par", "Y-state", "K-new", "K-field", "B-comp", "V-impl", "W-witness"],
     "C16": ["Z-ser", "Z-de"],
     "C17": ["O-wrap", "G-pure", "T-dbg", "P-rem", "P-fill", "V-unreach"],
 }
 
 # extra rules that only run in the thorough tier
-THOROUGH_RULES = {"C17": ["F-diff"]}
+THOROUGH_RULES = {"C17": ["F-diff", "X-contract"], "C08": ["W-witness"], "C09": ["W-witness"], "C12": ["W-witness"], "C13": ["W-witness"],
+                  "C01": ["X-contract"], "C05": ["X-contract"], "C06": ["X-contract"], "C07": ["X-contract"], "C04": ["X-contract"], "C10": ["X-contract"]}
+
+# thorough tier: every rule is re-run on the other build configurations (F2 release profile, F3 default features, F4 no default features);
+# rules that need constructs absent from a configuration are skipped there
+_FEATURE_RULES = {"B-par", "P-wrap", "E9-par", "Y-state", "Z-ser", "Z-de"}
+_ONCE_RULES = {"W-witness", "X-contract", "F-diff", "V-own", "V-unsafe", "V-impl"}
+CONFIG_SKIP = {
+    "F2": {"O-wrap", "G-pure", "T-dbg"} | _ONCE_RULES,
+    "F3": _FEATURE_RULES | _ONCE_RULES,
+    "F4": _FEATURE_RULES | _ONCE_RULES,
+}
 
 ASSUMPTIONS = {
     "*": ["hashbrown 0.14.5 behaves as in DESIGN §4 (contract table); rustc nightly MIR of the crate is faithful to the source",
